@@ -4,13 +4,14 @@
    setAlignment; src/core/memory.cpp: slice/copyFrom; src/occa/internal/core/memory.cpp:
    modeMemory_t::slice), transcribed branch for branch.
 
-   The model takes the four places that the repairs fixes/C03-1..3 and fixes/C04-1 change as a
+   The model takes the five places that the repairs fixes/C03-1..4 and fixes/C04-1 change as a
    parameter (`variant`), so that both the pinned and the repaired source are expressible:
      v_force  (C03-1) reserve's last exit packs the pool even when the size stays the same
      v_round  (C03-2) resize tracks blocks in whole multiples of the alignment
      v_fit    (C03-3) reserve tests the aligned extent against the size
+     v_resort (C03-4) resize/setAlignment rebuild the reservation set after moving its elements
      v_sub    (C04-1) add/removeModeMemoryRef subtract what other reservations cover
-   `fixed` is the code after the four patches; `pinned` is the snapshot.
+   `fixed` is the code after the five patches; `pinned` is the snapshot.
 
    All quantities are Z; dim_t/udim_t wrap-around is not modelled (sizes stay far below 2^63).
    No proofs in this file. *)
@@ -21,9 +22,9 @@ Local Open Scope Z_scope.
 (* finite maps with Z keys (stdlib AVL trees), used for the contents of a buffer *)
 Module ZM := FMapAVL.Make(Z_as_OT).
 
-Record variant := mkVariant { v_force : bool; v_round : bool; v_fit : bool; v_sub : bool }.
-Definition fixed : variant := mkVariant true true true true.
-Definition pinned : variant := mkVariant false false false false.
+Record variant := mkVariant { v_force : bool; v_round : bool; v_fit : bool; v_resort : bool; v_sub : bool }.
+Definition fixed : variant := mkVariant true true true true true.
+Definition pinned : variant := mkVariant false false false false false.
 
 (* ------------------------------------------------------------------ device byte counters
    modeDevice_t::bytesAllocated / maxBytesAllocated.  d_hist is a ghost: every value that
@@ -87,9 +88,12 @@ Record pool := mkPool {
   p_res : list res;       (* reservations, in the set's iteration order *)
   p_buf : buffer;         (* contents of `buffer` *)
   p_gen : Z;              (* how many backing buffers have been created (identity of `buffer`) *)
-  p_oob : bool            (* some memcpy of a migration touched bytes outside a buffer *)
+  p_oob : bool;           (* some memcpy of a migration touched bytes outside a buffer *)
+  p_tie : bool            (* a migration gave two reservations with different keys the same key
+                             without rebuilding the set: the set's order now rests on an address
+                             comparison that was never made (find() may miss an element) *)
 }.
-Definition pool0 : pool := mkPool 128 0 0 [] zero_buf 0 false.
+Definition pool0 : pool := mkPool 128 0 0 [] zero_buf 0 false false.
 
 (* (x / alignment) * alignment   and   ((x + alignment - 1) / alignment) * alignment *)
 Definition rd (a x : Z) : Z := (x / a) * a.
@@ -136,7 +140,7 @@ Definition delta (V : variant) (a : Z) (x : res) (l : list res) : Z :=
   if v_sub V then delta_fix a lo hi (hi - lo) l else delta_pin a lo hi l.
 
 Definition set_res (p : pool) (reserved : Z) (l : list res) : pool :=
-  mkPool (p_align p) (p_size p) reserved l (p_buf p) (p_gen p) (p_oob p).
+  mkPool (p_align p) (p_size p) reserved l (p_buf p) (p_gen p) (p_oob p) (p_tie p).
 
 (* modeMemoryPool_t::addModeMemoryRef (reached from the modeMemory_t constructor) *)
 Definition add_ref (V : variant) (p : pool) (x : res) : pool :=
@@ -201,6 +205,19 @@ Definition copy_ok (oldsz newsz : Z) (c : Z * Z * Z) : bool :=
   let '(d, s, n) := c in
   (0 <=? n) && (0 <=? s) && (s + n <=? oldsz) && (0 <=? d) && (d + n <=? newsz).
 
+(* reservationSet moved(reservations.begin(), reservations.end()); reservations.swap(moved) *)
+Definition resort (l : list res) : list res := fold_right insert [] l.
+Definition after_move (V : variant) (l : list res) : list res := if v_resort V then resort l else l.
+
+(* two neighbours in the set had different (offset,size) before the move and the same after *)
+Definition same_key (x y : res) : bool := (r_off x =? r_off y) && (r_sz x =? r_sz y).
+Fixpoint collapsed (l l' : list res) : bool :=
+  match l, l' with
+  | x :: ((y :: _) as tl), x' :: ((y' :: _) as tl') =>
+      (negb (same_key x y) && same_key x' y') || collapsed tl tl'
+  | _, _ => false
+  end.
+
 (* ------------------------------------------------------------------ resize
    None = OCCA_ERROR thrown (nothing changed).  `force` is the forcePacking argument added by
    fixes/C03-1 (always false in the pinned source). *)
@@ -215,7 +232,7 @@ Definition resize (V : variant) (force : bool) (d : dev) (p : pool) (bytes : Z) 
         (* if (buffer) delete buffer; buffer = makeBuffer(); buffer->malloc(alignedBytes) *)
         let d1 := dev_free d (p_size p) in
         let d2 := dev_alloc d1 ab in
-        Some (d2, mkPool a ab (p_reserved p) [] zero_buf (p_gen p + 1) (p_oob p))
+        Some (d2, mkPool a ab (p_reserved p) [] zero_buf (p_gen p + 1) (p_oob p) (p_tie p))
     | _ =>
         let d1 := dev_alloc d ab in
         let '(l', cs, nr) :=
@@ -224,16 +241,17 @@ Definition resize (V : variant) (force : bool) (d : dev) (p : pool) (bytes : Z) 
         let buf' := apply_copies (p_buf p) cs zero_buf in
         let oob' := p_oob p || negb (forallb (copy_ok (p_size p) ab) cs) in
         let d2 := dev_free d1 (p_size p) in
-        Some (d2, mkPool a ab nr l' buf' (p_gen p + 1) oob')
+        Some (d2, mkPool a ab nr (after_move V l') buf' (p_gen p + 1) oob'
+                         (p_tie p || (negb (v_resort V) && collapsed (p_res p) l')))
     end.
 
 (* ------------------------------------------------------------------ setAlignment *)
-Definition set_alignment (d : dev) (p : pool) (na : Z) : option (dev * pool) :=
+Definition set_alignment (V : variant) (d : dev) (p : pool) (na : Z) : option (dev * pool) :=
   if na =? 0 then None
   else if p_align p =? na then Some (d, p)
   else
     match p_res p with
-    | [] => Some (d, mkPool na (p_size p) (p_reserved p) [] (p_buf p) (p_gen p) (p_oob p))
+    | [] => Some (d, mkPool na (p_size p) (p_reserved p) [] (p_buf p) (p_gen p) (p_oob p) (p_tie p))
     | m :: tl =>
         let newReserved := size_loop r_off r_end (ru na) (r_off m) (r_end m) tl in
         let d1 := dev_alloc d newReserved in
@@ -241,7 +259,8 @@ Definition set_alignment (d : dev) (p : pool) (na : Z) : option (dev * pool) :=
         let buf' := apply_copies (p_buf p) cs zero_buf in
         let oob' := p_oob p || negb (forallb (copy_ok (p_size p) newReserved) cs) in
         let d2 := dev_free d1 (p_size p) in
-        Some (d2, mkPool na newReserved newReserved l' buf' (p_gen p + 1) oob')
+        Some (d2, mkPool na newReserved newReserved (after_move V l') buf' (p_gen p + 1) oob'
+                         (p_tie p || (negb (v_resort V) && collapsed (p_res p) l')))
     end.
 
 (* ------------------------------------------------------------------ reserve *)
@@ -291,7 +310,7 @@ Fixpoint read_bytes (b : buffer) (pos : Z) (n : nat) : list Z :=
   end.
 
 Definition set_buf (p : pool) (b : buffer) : pool :=
-  mkPool (p_align p) (p_size p) (p_reserved p) (p_res p) b (p_gen p) (p_oob p).
+  mkPool (p_align p) (p_size p) (p_reserved p) (p_res p) b (p_gen p) (p_oob p) (p_tie p).
 
 (* ------------------------------------------------------------------ handle-level operations
    One live occa::memory handle per modeMemory_t, one occa::memoryPool handle; dtype byte. *)
@@ -352,7 +371,7 @@ Definition step (V : variant) (s : state) (o : op) : state * outcome :=
       end
   | OResize bytes => lift s (resize V false d p bytes)
   | OShrink => lift s (resize V false d p (p_reserved p))
-  | OAlign a => lift s (set_alignment d p a)
+  | OAlign a => lift s (set_alignment V d p a)
   end.
 
 Definition run (V : variant) (s : state) (ops : list op) : state :=
